@@ -126,6 +126,11 @@ func genHistory(r *fw.Rng, o genOpts) (Payload, int) {
 		if failed && o.stopAtFailure {
 			break
 		}
+		// with a real cancel function every call after the first failure is answered by a termination
+		// failure at once: three of them are enough
+		if firstFail >= 0 && !o.noCancel && len(pl.Ops) >= firstFail+4 {
+			break
+		}
 	}
 	return pl, firstFail
 }
